@@ -47,6 +47,11 @@ def run(ck, P):
         feas, env, a, evs = simulate(pe, path)
         if not feas:
             continue
+        # a failed allocation on the path (e.g. of the fresh batch queue): outside the property's quantifier, DESIGN §10.7
+        allocd_ = {S(d.lhs) for d in evs if d.kind in ("decl", "assign") and d.rhs is not None and d.lhs is not None and strip(d.lhs)["k"] == "var"
+                   and strip(d.rhs)["k"] == "call" and strip(d.rhs).get("callee") in ("m_queue_new", "m_mem_new")}
+        if any(a.get(x_) is False for x_ in allocd_):
+            continue
         nfeasible += 1
         # conditions written over locals (an `owner` pointer saved before the release, a cached queue length) are read through the
         # locals' definitions
@@ -102,7 +107,10 @@ def run(ck, P):
             ce = inv[0]
             qa = strip(ce.args[1])
             cap = [e for e in evs if e.kind == "decl" and e.e.get("name") == qa.get("name") and S(e.rhs) == "mod->batch.events"]
-            sw = [e for e in evs if e.kind == "assign" and S(e.lhs) == "mod->batch.events" and strip(e.rhs).get("callee") == "m_queue_new"]
+            fresh_ = {S(d.lhs) for d in evs if d.kind in ("decl", "assign") and d.rhs is not None and d.lhs is not None
+                      and strip(d.rhs)["k"] == "call" and strip(d.rhs).get("callee") == "m_queue_new"}
+            sw = [e for e in evs if e.kind == "assign" and S(e.lhs) == "mod->batch.events" and
+                  (strip(e.rhs).get("callee") == "m_queue_new" or S(e.rhs) in fresh_)]
             ids = [id(e) for e in evs]
             ok = len(inv) == 1 and len(cap) == 1 and len(sw) == 1 and ids.index(id(cap[0])) < ids.index(id(sw[0])) < ids.index(id(ce)) \
                 and S(ce.args[0]) == "mod"
@@ -215,7 +223,11 @@ def run(ck, P):
     cs = P.fn("create_src", "Lib/core/src.c")
     ck.analysed(cs)
     ors = [e for e in cs.events() if e.kind == "assign" and S(e.lhs) == "src->flags" and e.e["op"] == "|=" and cval(e.rhs) == HIGH]
-    okh = bool(ors) and all(has(X.facts(cs, e), "(type == %d)" % E["M_SRC_TYPE_FD"]) for e in ors)
+    # decided per kind (create_src specialised to that type): every path creating an FD source sets HIGH, no path creating another kind does
+    from props.common import flag_forced_for_type
+    tot_fd, set_fd = flag_forced_for_type(cs, E["M_SRC_TYPE_FD"], HIGH)
+    others_ = [flag_forced_for_type(cs, v_, HIGH) for k_, v_ in E.items() if k_.startswith("M_SRC_TYPE_") and k_ not in ("M_SRC_TYPE_FD", "M_SRC_TYPE_END")]
+    okh = bool(ors) and tot_fd > 0 and set_fd == tot_fd and all(s_ == 0 for (_t, s_) in others_)
     ck.ob("C13.2-PRIO", cs.site("fd forced HIGH"), okh, "src->flags |= HIGH under type == M_SRC_TYPE_FD: %s" % okh,
           witness=[("del_event", cs.unit, cs.name, e.block.id, e.idx) for e in ors])
     # what push_evt compares a source's user pointer with — in a boolean local, in a branch, directly or through a saved copy
